@@ -697,7 +697,7 @@ class Data(Field):
                 endswith = (
                     re.escape(self.until_marker)
                     if isinstance(self.until_marker, bytes) else
-                    self.until_marker.pattern
+                    b"(?:" + self.until_marker.pattern + b")"
                 )
                 fragments.append(custom_regexp + endswith, is_literal=False)
 
